@@ -29,11 +29,14 @@ Shapes ==
     Arr(<<>>), Arr(<<EmptyObj>>), Arr(<<EmptyObj, EmptyObj>>), Arr(<<JTrue>>), Arr(<<Str(S_a)>>),
     Arr(<<Str(S_a), Str(S_b)>>), Arr(<<Str(S_a), Str(S_a)>>), Arr(<<N1>>), Arr(<<Str(T_integer), Str(T_string)>>),
     EmptyObj, Obj1(S_a, EmptyObj), Obj1(S_a, JTrue), Obj1(S_a, Arr(<<Str(S_b)>>)), Obj1(S_a, Str(S_b)), Obj1(S_a, N1), TInt,
+    \* two members that are equal JSON values spelt differently (1 and 1.0 inside): duplicates for uniqueItems
+    Arr(<<Obj1(K_minimum, N1), Obj1(K_minimum, F1)>>),
     \* names that are hostile to message formatting: "%s", "{0}"
     Obj1(S_pct, Arr(<<Str(S_b)>>)), Obj1(S_pct, EmptyObj), Arr(<<Str(S_pct), Str(S_brace)>>), Obj1(S_brace, Arr(<<Str(S_pct)>>)) }
 SmallShapes == { JNull, JTrue, JFalse, N0, N1, F15, HUGE, Str(<<>>), Str(S_a), Arr(<<>>), Arr(<<Str(S_a)>>), Arr(<<EmptyObj>>),
                  EmptyObj, Obj1(S_a, EmptyObj), Obj1(S_a, Arr(<<Str(S_b)>>)), TInt,
-                 Obj1(S_pct, Arr(<<Str(S_b)>>)), Obj1(S_pct, EmptyObj), Arr(<<Str(S_pct), Str(S_brace)>>) }
+                 Obj1(S_pct, Arr(<<Str(S_b)>>)), Obj1(S_pct, EmptyObj), Arr(<<Str(S_pct), Str(S_brace)>>),
+                 Arr(<<Obj1(K_minimum, N1), Obj1(K_minimum, F1)>>) }
 ShapePool == IF ShapeSel = "all" THEN Shapes ELSE SmallShapes
 
 \* every keyword name of the draft's vocabulary, the boolean exclusive* of drafts 3/4, then/else, required of draft 3
@@ -102,10 +105,17 @@ RefCands(d) == {
   JObj(<<IdKw(d), K_properties, K_definitions>>,
        <<Str(<<104,116,116,112,58,47,47,120,46,105,110,118,97,108,105,100,47,114,46,106,115,111,110>>),
          Obj2(S_a, Obj1(K_d_ref, RefTo(U_remote)), S_b, Obj1(K_d_ref, RefTo(P_defs_a))), Obj1(S_a, TInt)>>) }
+\* boolean subschemas next to ordinary ones: an instance failing both yields an error without a keyword name (the
+\* `false` schema's) that ties in relevance with a named one
+BoolCands(d) == IF d < 6 THEN {}
+                ELSE { Obj1(K_properties, Obj2(S_a, JFalse, S_b, TStr)),
+                       Obj1(K_anyOf, Arr(<<JFalse, TStr>>)), Obj1(K_oneOf, Arr(<<TStr, JFalse, JFalse>>)),
+                       Obj2(K_items, JFalse, K_minItems, N2), Obj1(K_items, Arr(<<JFalse, TStr>>)),
+                       Obj2(K_additionalProperties, JFalse, K_properties, Obj1(S_a, JFalse)) }
 RefCand(c) == /\ ~down /\ schema = EmptyObj /\ schema' = c /\ down' = TRUE
 
 Next == \/ \E k \in ShapeKws(D), v \in ShapePool : AddShape(k, v)
-        \/ \E c \in RefCands(D) : RefCand(c)
+        \/ \E c \in RefCands(D) \cup BoolCands(D) : RefCand(c)
         \/ \E w \in DownKinds(D) : Down(w)
         \/ \E v \in Shapes : Bare(v)
 Spec == Init /\ [][Next]_vars
